@@ -157,6 +157,9 @@ def graph_fixed():
     ev.param_defaults = {"T": "FgMeta2"}
     ev.param_default_tys = {"T": user(meta2)}
     ev.fixed_args = [prim("bool")]
+    # a file without extension next to a file of the same name with `.ts`: two files, the one imports from the other
+    dts = add(Item("FgSameStemDep", "FgSameStemDep", "named", fields=[Field("fg_id", prim("i32"))], export_to="fgstem/Dep.ts"))
+    add(Item("FgSameStemHolder", "FgSameStemHolder", "named", fields=[Field("fg_dep", user(dts))], export_to="fgstem/Dep"))
     # directory names that need escaping inside the import statement's string literal
     qd = add(Item("FgQuoteDep", "FgQuoteDep", "named", fields=[Field("fg_q", prim("u8"))], export_to='fg"quo"te/'))
     bd = add(Item("FgBackslashDep", "FgBackslashDep", "named", fields=[Field("fg_b", prim("u8"))], export_to="fgback\\slash/n.ts"))
